@@ -100,6 +100,10 @@ def message_pool(rng: random.Random, hosts=("peer1.x", "peer2.x"), unique=False)
         unk(hb, ee, h, with_oh=False, realm="foreign.realm"), unk(hb, ee, h, with_oh=False, app=77),
         unk(hb, ee, h, with_oh=False, realm=None), unk(hb, ee, h, realm="foreign.realm"), unk(hb, ee, h, app=77, cmd="MO"),
         f"AC:192:3:{hb}:{ee}:sid=a;1,oh={h},or={REALM},dr={REALM},acct=3,rt=1,rn=0",
+        # base-protocol requests whose header carries an application id other than 0, with the P / T bits (the answer mirrors)
+        dwr(hb, ee, h).replace("DW:128:0:", "DW:128:4:"), dwr(hb, ee, h).replace("DW:128:0:", "DW:192:4294967295:"),
+        dpr(hb, ee, h).replace("DP:128:0:", "DP:128:4:"), dwr(hb, ee, h).replace("DW:128:0:", "DW:144:0:"),
+        cer(h, "4", hb, ee).replace("CE:128:0:", "CE:128:4:"),
     ]
 
 
